@@ -131,6 +131,56 @@ def butted_row(rnd):
     return {'mode': md, 'P': 10 if md else rnd.choice([0, 0, 10]), 'buf': 0, 'opts': rnd.randint(0, 31) & ~1, 'shapes': shapes, 'conns': conns}
 
 
+def pin_wall_records(d, quick, LS):
+    """nested connectors between side pins of two shapes, next to a wall that extends beyond both: the vertical (horizontal) segments can
+    only lie in the channel between the shapes and the wall, the outer one flush on the wall -- nudging has to spread them AWAY from it.
+    Pins need the object-level harness; the records are judged by RouteValid like all others."""
+    from checks import life_common as LC
+    hl, = V.build(['h_life'])
+    hists, meta = [], []
+    for gap in ((8, 12) if quick else (6, 8, 10, 12, 16)):
+        for turn in (0, 1):                      # 0: pins on the right sides, wall to the right; 1: pins on the lower sides, wall below
+            for k in (2, 3):
+                for buf in (0, 1):
+                    # shape A above (left of) shape B, pins at quarters 1..3 of the facing side, classes 1..k
+                    A, B = (0, 0, 10, 8), (0, 16, 10, 24)
+                    W = (10 + gap, -10, 10 + gap + 6, 34)
+                    tr = (lambda r: r) if turn == 0 else (lambda r: (r[1], r[0], r[3], r[2]))
+                    ops = [[1, 1] + list(tr(A)), [1, 2] + list(tr(B)), [1, 3] + list(tr(W))]
+                    for cls in range(1, k + 1):
+                        qa, qb = cls, 4 - cls                         # outer connector: first pin of A, last pin of B
+                        pa = (4, qa) if turn == 0 else (qa, 4)
+                        pb = (4, qb) if turn == 0 else (qb, 4)
+                        dirs = 8 if turn == 0 else 2
+                        ops.append([2, 1, cls, pa[0], pa[1], 1, 0, dirs, 0])
+                        ops.append([2, 2, cls, pb[0], pb[1], 1, 0, dirs, 0])
+                    for cls in range(1, k + 1):
+                        ops.append([4, 20 + cls, 1, 1, cls, 1, 2, cls])
+                    ops.append([13])
+                    hists.append(ops); meta.append(buf)
+    scen = os.path.join(d, 'pinwalls.txt')
+    with open(scen, 'w') as f:
+        for h, buf in zip(hists, meta):
+            f.write('1 %d %d %s\n' % (buf, len(h), ' '.join(str(x) for o in h for x in o)))
+    execs, _ = LC.run_harness(hl, scen, os.path.join(d, 'pinwalls.ndjson'), len(hists), timeout=600)
+    recs = []
+    for ex in execs:
+        snaps = [json.loads(l) for l in ex['lines'] if '"processed":true' in l and '"shapes"' in l]
+        errs = [json.loads(l) for l in ex['lines'] if '"error"' in l]
+        buf = meta[ex['index']]
+        base = {'scene': -1 - ex['index'], 'mode': 1, 'buf': 2 * buf, 'opts': 0, 'P': 10}
+        if errs or not snaps:
+            recs.append(
+                        dict(base, **{'conn': 0, 'thrown': True, 'polys': [], 'src': [0, 0], 'dst': [0, 0], 'disp': [], 'raw': [], 'what': (errs[0]['error'] if errs else 'no snapshot')}))
+            continue
+        sn = snaps[-1]
+        polys = [[[p[0], p[1]] for p in ((q[3], q[2]), (q[3], q[4]), (q[1], q[4]), (q[1], q[2]))] for q in sn['shapes']]
+        for ci, c in enumerate(sorted(sn['conns'], key=lambda c: c['id'])):
+            recs.append(dict(base, **{'conn': ci, 'thrown': False, 'polys': polys, 'src': c['src']['p'], 'dst': c['dst']['p'], 'disp': c['disp'],
+                                      'raw': [p[:2] for p in c['raw']], 'what': ''}))
+    return recs
+
+
 def main(tier):
     ev = V.Evidence(PID, tier)
     vd = V.Verdict(PID, ev)
@@ -184,6 +234,7 @@ def main(tier):
         scenes.append(random_scene(rnd, rnd.randint(0, 1)))
     out = RC.run_scenes(hr, d, 'valid', scenes)
     recs = make_records(out)
+    recs += pin_wall_records(d, quick, out['LS'])
     rf = os.path.join(d, 'valid_recs.json')
     json.dump({'chunk': 100, 'recs': recs}, open(rf, 'w'))
     r = V.tlc(RV, os.path.join(V.SPEC, 'avoid', 'RouteValid.cfg'), env={'VALIDRECS': rf}, timeout=3000, cont=True, mem='24g')
